@@ -363,3 +363,11 @@ func ReadRootID(file string) (string, error) {
 	err = db.QueryRow("SELECT root_id FROM meta").Scan(&k)
 	return k, err
 }
+
+// Stop2 completes a shutdown after Store.Stop was already called by the harness.
+func (i *Inst) Stop2() {
+	<-i.done
+	i.Nc.Close()
+	i.StNc.Close()
+	nats.RemoveBus(i.URL)
+}
